@@ -23,8 +23,10 @@ use fuel_core::{
         in_memory::memory_store::MemoryStore,
     },
 };
+use fuel_core_importer::ports::ImporterDatabase;
 use fuel_core_storage::{
     Error as StorageError,
+    Result as StorageResult,
     StorageInspect,
     kv_store::{
         KeyValueInspect,
@@ -35,6 +37,7 @@ use fuel_core_storage::{
         Changes,
         HistoricalView,
         Modifiable,
+        StorageChanges,
     },
 };
 use h_common::*;
@@ -57,8 +60,13 @@ struct HeightTable {
     pay_column: &'static str,
 }
 
+/// The database's commit path that takes a list of change sets (only the on-chain database has one:
+/// `ImporterDatabase::commit_changes`, used by the block importer).
+type ListCommit<D> = fn(&mut Database<D>, StorageChanges) -> StorageResult<()>;
+
 pub trait Node {
-    fn commit(&mut self, s: &[i64]) -> String;
+    /// `cf`: "none", or how the batch is made unacceptable for the storage backend ("meta" / "list")
+    fn commit(&mut self, s: &[i64], cf: &str) -> String;
     fn reopen(&mut self);
     fn rollback(&mut self) -> String;
     fn project(&self) -> (i64, i64, i64);
@@ -71,6 +79,7 @@ struct N<D: DatabaseDescription> {
     table: HeightTable,
     hcol: Option<D::Column>,
     pcol: D::Column,
+    list_commit: Option<ListCommit<D>>,
 }
 
 fn find_col<D: DatabaseDescription>(name: &str) -> D::Column {
@@ -94,10 +103,10 @@ where
     D: DatabaseDescription,
     Database<D>: Modifiable + StorageInspect<MetadataTable<D>, Error = StorageError>,
 {
-    fn new(backend: &str, table: HeightTable) -> Self {
+    fn new(backend: &str, table: HeightTable, list_commit: Option<ListCommit<D>>) -> Self {
         let hcol = if table.column.is_empty() { None } else { Some(find_col::<D>(table.column)) };
         let pcol = find_col::<D>(table.pay_column);
-        let mut n = N { db: None, mem: None, dir: None, table, hcol, pcol };
+        let mut n = N { db: None, mem: None, dir: None, table, hcol, pcol, list_commit };
         match backend {
             "mem" => {
                 let store = Arc::new(MemoryStore::<D>::default());
@@ -135,7 +144,7 @@ where
     D: DatabaseDescription,
     Database<D>: Modifiable + StorageInspect<MetadataTable<D>, Error = StorageError>,
 {
-    fn commit(&mut self, s: &[i64]) -> String {
+    fn commit(&mut self, s: &[i64], cf: &str) -> String {
         let mut changes = Changes::default();
         if let Some(hcol) = self.hcol {
             let col = changes.entry(hcol.id()).or_default();
@@ -156,12 +165,33 @@ where
             die("this database kind has no height-carrying table in this build");
         }
         let new_pay = if self.payload() == 1 { 0u8 } else { 1u8 };
-        changes
-            .entry(self.pcol.id())
-            .or_default()
-            .insert(PAY_KEY.to_vec().into(), WriteOperation::Insert(vec![new_pay].into()));
+        let pay_op = WriteOperation::Insert(vec![new_pay].into());
+        changes.entry(self.pcol.id()).or_default().insert(PAY_KEY.to_vec().into(), pay_op.clone());
+        if cf != "none" && s.is_empty() {
+            die("a backend-rejected commit needs a height (the spec never asks for one without)");
+        }
+        let list_commit = self.list_commit;
+        let pcol = self.pcol.id();
+        let mcol = D::metadata_column().id();
         let db = self.db.as_mut().unwrap_or_else(|| die("no database"));
-        match guarded(|| db.commit_changes(changes)) {
+        let r = match cf {
+            "none" => guarded(|| db.commit_changes(changes)),
+            "meta" => {
+                // the change set writes the metadata entry (key `()` = empty) itself: it collides with the
+                // metadata update the commit appends as a second change set
+                changes.entry(mcol).or_default().insert(Vec::new().into(), WriteOperation::Insert(vec![0xFF].into()));
+                guarded(|| db.commit_changes(changes))
+            }
+            "list" => {
+                // two change sets of one list write the same key
+                let f = list_commit.unwrap_or_else(|| die("this database kind has no list commit path"));
+                let mut second = Changes::default();
+                second.entry(pcol).or_default().insert(PAY_KEY.to_vec().into(), pay_op);
+                guarded(|| f(db, StorageChanges::ChangesList(vec![changes, second])))
+            }
+            other => die(&format!("unknown conflict kind {other}")),
+        };
+        match r {
             Ok(Ok(())) => "Ok".to_string(),
             Ok(Err(e)) => classify(&e),
             Err(p) => format!("Panic:{}", p.chars().take(60).collect::<String>()),
@@ -207,24 +237,29 @@ fn make(kind: &str, backend: &str) -> Box<dyn Node> {
         "onchain" => Box::new(N::<OnChain>::new(
             backend,
             HeightTable { column: "FuelBlocks", in_value: false, width: 4, pay_column: "Coins" },
+            Some(|db, changes| ImporterDatabase::commit_changes(db, changes)),
         )),
         "offchain" => Box::new(N::<OffChain>::new(
             backend,
             HeightTable { column: "FuelBlockIdsToHeights", in_value: true, width: 4, pay_column: "Statistic" },
+            None,
         )),
         "gasprice" => Box::new(N::<GasPriceDatabase>::new(
             backend,
             HeightTable { column: "State", in_value: false, width: 4, pay_column: "UnrecordedBlocks" },
+            None,
         )),
         "compression" => Box::new(N::<CompressionDatabase>::new(
             backend,
             HeightTable { column: "CompressedBlocks", in_value: false, width: 4, pay_column: "Timestamps" },
+            None,
         )),
         // built without the fuel-core `relayer` feature: the only column is Metadata and the
         // heights lookup is `|_| Ok(vec![])`
         "relayer" => Box::new(N::<Relayer>::new(
             backend,
             HeightTable { column: "", in_value: false, width: 8, pay_column: "Metadata" },
+            None,
         )),
         k => die(&format!("unknown kind {k}")),
     }
@@ -256,8 +291,9 @@ pub fn run(args: &Args) {
                 "Commit" => {
                     let n = node.as_mut().unwrap_or_else(|| die("Commit before New"));
                     let sv = s.ints("S");
-                    let res = n.commit(&sv);
-                    log(&mut t, "Commit", json!({"S": sv, "res": res}), n.as_ref());
+                    let cf = s.get("cf").and_then(|v| v.as_str()).unwrap_or("none");
+                    let res = n.commit(&sv, cf);
+                    log(&mut t, "Commit", json!({"S": sv, "cf": cf, "res": res}), n.as_ref());
                 }
                 "Reopen" => {
                     let n = node.as_mut().unwrap_or_else(|| die("Reopen before New"));
@@ -327,11 +363,19 @@ pub fn random(args: &Args) {
                             _ => vec![next],
                         }
                     };
-                    let res = node.commit(&sv);
+                    // now and then a batch that passes the height checks but that the backend must reject
+                    let cf = if sv.is_empty() || !rng.chance(1, 5) {
+                        "none"
+                    } else if kind == "onchain" && rng.chance(1, 2) {
+                        "list"
+                    } else {
+                        "meta"
+                    };
+                    let res = node.commit(&sv, cf);
                     if res == "Ok" && !sv.is_empty() && backend == "rocks" {
                         diffs += 1;
                     }
-                    log(&mut t, "Commit", json!({"S": sv, "res": res}), node.as_ref());
+                    log(&mut t, "Commit", json!({"S": sv, "cf": cf, "res": res}), node.as_ref());
                 }
             }
         }
